@@ -38,11 +38,12 @@ const (
 	KLimits // data built to reach the extreme tokens of the run / match coders (see expandInto)
 	KRecords // fixed-width text records (CR LF or LF line ends) whose width often divides the block size
 	KLatin1  // 8-bit text: words whose letters are often accented Latin-1 bytes (>= 0xC0), so that escapes abound
+	KExeELF  // well-formed minimal ELF64 image: one code section at a drawn (possibly unaligned) file offset, x86-64 or AArch64 code
 	NKinds
 )
 
 var KindNames = []string{"random", "text", "xml", "utf8", "dna", "exe-x86", "exe-arm", "wav", "bmp", "runs",
-	"skewed", "smallalpha", "repeat", "numeric", "base64", "same", "magic", "zeros", "ramp", "mixed", "limits", "records", "latin1"}
+	"skewed", "smallalpha", "repeat", "numeric", "base64", "same", "magic", "zeros", "ramp", "mixed", "limits", "records", "latin1", "exe-elf"}
 
 // Recipe describes a byte string; Expand builds it.
 type Recipe struct {
@@ -117,7 +118,7 @@ func (rc Recipe) Expand() []byte {
 }
 
 // NEdges is the number of edge decorations.
-const NEdges = 18
+const NEdges = 19
 
 // applyEdge rewrites a few bytes at the block edges: blocks of a stream are cut at
 // arbitrary positions, so a block may start or end in the middle of a CR LF pair,
@@ -174,6 +175,8 @@ func applyEdge(b []byte, edge int) {
 		b[n-5], b[n-4], b[n-3], b[n-2] = 0xF0, 'x', 0x80, 0x80
 	case 17: // 4-byte sequence straddling n-4 with a bad third byte; lone continuation bytes at the very end
 		b[n-6], b[n-5], b[n-4], b[n-3], b[n-1] = 0xF0, 0x9F, '\n', 0x98, 0xBF
+	case 18: // four bytes that cannot start a UTF-8 sequence at the very start (one more than a cut code point leaves)
+		b[0], b[1], b[2], b[3] = 0x80, 0xBF, 0x9F, 0x80
 	case 14: // a run of 65538..65793 bytes (just above 0xFFFF plus the run threshold) when the block allows it
 		v := b[n/16]
 		for i := n / 16; i < n-1 && i < n/16+65538+int(v); i++ {
@@ -365,6 +368,64 @@ func expandInto(b []byte, kind int, seed uint64, p1, p2 int) {
 		// the tail is where the coders run out of room: end on a stretch of 0..9 accented letters
 		for i, k := 0, int(seed%10); i < k && i < n; i++ {
 			b[n-1-i] = byte(0xC0 + r.intn(0x3F))
+		}
+	case KExeELF:
+		if n < 0x100 {
+			r.fill(b)
+			return
+		}
+		arm := p1%2 == 0
+		copy(b, []byte{0x7F, 'E', 'L', 'F', 2, 1, 1, 0})
+		mach := uint16(0x3E)
+		if arm {
+			mach = 0xB7
+		}
+		binary.LittleEndian.PutUint16(b[18:], mach)
+		// one section header at 0x40 (entry size 0x40): PROGBITS at file offset off
+		off := 0x100 + []int{0, 0, 0, 4, 1, 2, 3, 8}[p2%8] + 16*(p2/8%4)
+		if off+128 > n {
+			off = 0x80
+		}
+		ln := n - off - 64*(p1/2%2) // the section reaches the end of the block, or stops 64 bytes before it
+		if ln < 64 {
+			ln = n - off
+		}
+		binary.LittleEndian.PutUint64(b[0x28:], 0x40)
+		binary.LittleEndian.PutUint16(b[0x3A:], 0x40)
+		binary.LittleEndian.PutUint16(b[0x3C:], 1)
+		binary.LittleEndian.PutUint32(b[0x40+4:], 1)
+		binary.LittleEndian.PutUint64(b[0x40+0x18:], uint64(off))
+		binary.LittleEndian.PutUint64(b[0x40+0x20:], uint64(ln))
+		if arm {
+			for i := off; i+4 <= n; i += 4 {
+				var ins uint32
+				switch r.intn(4) {
+				case 0:
+					ins = 0x94000000 | uint32(r.intn(2000)) // BL forward
+				case 1:
+					ins = 0x14000000 | (uint32(-int32(r.intn(200)+1)) & 0x03FFFFFF) // B backward
+				default:
+					ins = 0xD1000000 | uint32(r.intn(1<<20))
+				}
+				binary.LittleEndian.PutUint32(b[i:], ins)
+			}
+		} else {
+			for i := off; i < n; i++ {
+				switch r.intn(8) {
+				case 0:
+					b[i] = 0xE8
+				case 1:
+					b[i] = 0xE9
+				case 2:
+					b[i] = 0x0F
+				case 3, 4:
+					b[i] = 0
+				case 5:
+					b[i] = 0xFF
+				default:
+					b[i] = byte(r.intn(256))
+				}
+			}
 		}
 	case KDNA:
 		al := "ACGT"
@@ -571,8 +632,8 @@ func edgesFor(kind int) []int {
 	case KText, KXML, KRecords, KLatin1:
 		return []int{1, 2, 3, 12}
 	case KUTF8:
-		return []int{7, 8, 12, 15, 16, 17}
-	case KExeX86, KExeARM:
+		return []int{7, 8, 12, 15, 16, 17, 18}
+	case KExeX86, KExeARM, KExeELF:
 		return []int{4, 5, 6}
 	case KRuns, KZeros, KSame:
 		return []int{9, 10, 13, 14}
